@@ -21,7 +21,90 @@ fn fx_hash<T: Hash>(t: &T) -> u64 {
     h.finish()
 }
 
-pub fn run(_ctx: &Ctx) -> Report {
+pub fn run(ctx: &Ctx) -> Report {
+    let mut report = relations();
+    if !ctx.in_child {
+        concurrent_parse_stress(ctx, &mut report);
+        dev_pass(ctx, &mut report);
+        super::firstuse::run_children(ctx, "pairs", 24, &mut report);
+    }
+    report
+}
+
+/// Many threads parsing different pair texts at once; every result against the built pair.
+fn concurrent_parse_stress(ctx: &Ctx, report: &mut Report) {
+    let threads = crate::util::threads().max(2);
+    let per_thread = ctx.tier.pick(150_000u64, 1_500_000);
+    let bad: Vec<Vec<String>> = std::thread::scope(|scope| {
+        let mut handles = Vec::new();
+        for t in 0..threads {
+            let seed = ctx.seed;
+            handles.push(scope.spawn(move || {
+                let mut rng = crate::util::Rng::derive(seed, "c14-concurrent", t as u64);
+                let mut bad: Vec<String> = Vec::new();
+                // a small pool of texts so that threads keep meeting on the same and on different texts
+                let pool: Vec<(u8, u8)> = (0..64).map(|_| {
+                    let v = rng.sample(52, 2);
+                    (v[0] as u8, v[1] as u8)
+                }).collect();
+                for _ in 0..per_thread {
+                    let (a, b) = pool[rng.usize_below(pool.len())];
+                    let text = format!("{}{}", card_text(a), card_text(b));
+                    let (lo, hi) = pid(a, b);
+                    match text.parse::<CardPair>() {
+                        Ok(p) if cid(&p[0]) == lo && cid(&p[1]) == hi => {}
+                        other => {
+                            if bad.len() < 4 {
+                                bad.push(format!("'{}' parses to {:?}", text, other));
+                            }
+                        }
+                    }
+                }
+                bad
+            }));
+        }
+        handles.into_iter().map(|h| h.join().unwrap_or_else(|_| vec!["a parsing thread panicked".to_string()])).collect()
+    });
+    report.evaluations += per_thread * threads as u64;
+    report.set("concurrent_parses", Json::Int((per_thread * threads as u64) as i128));
+    for b in bad.into_iter().flatten() {
+        report.violate(
+            format!("concurrent-parse:{}", crate::util::hash_str(&b) % 100_000),
+            format!("while {} threads parse pair texts concurrently: {}", threads, b),
+            Json::obj().set("kind", Json::str("c14")).set("relation", Json::str("concurrent-parse")),
+        );
+    }
+}
+
+fn dev_pass(ctx: &Ctx, report: &mut Report) {
+    use crate::child::{self, ChildOutcome};
+    let exe = match Ctx::exe_for("debug") {
+        Some(e) => e,
+        None => {
+            report.inconclusive("no dev-profile binary available (VERIF_DEBUG_EXE not set)");
+            return;
+        }
+    };
+    let case = Json::obj().set("kind", Json::str("dev-all"));
+    match child::run_case(&exe, &ctx.id, &case, 8 << 20, std::time::Duration::from_secs(600)) {
+        ChildOutcome::Reported(doc) => {
+            let ev = report.evaluations;
+            child::merge_child_report(report, &doc, "debug:");
+            report.evaluations = ev;
+            report.count("dev_profile_pass", 1);
+        }
+        ChildOutcome::Crashed { signal, code, stack_overflow, stderr_tail } => report.violate(
+            "debug:crash".to_string(),
+            format!("[dev profile] the relation sweep died (signal {:?}, code {:?}, stack overflow {}): {}", signal, code, stack_overflow, stderr_tail),
+            case,
+        ),
+        ChildOutcome::Timeout { after_s } => report.inconclusive(format!("dev-profile pass timed out after {:.0}s", after_s)),
+        ChildOutcome::SpawnFailed(e) => report.inconclusive(format!("dev-profile pass: {}", e)),
+    }
+    child::cleanup_scratch();
+}
+
+fn relations() -> Report {
     let mut report = Report::new();
     report.rule = "all 52x51 ordered pairs of distinct cards, each through every relation of the property (either-order equality, std and Fx hash equality, canonical first element, text round trip, both text orders, map keyed in both orders); distinct = distinct (relation, ordered pair)".into();
     report.exhaustive = Some(true);
@@ -70,6 +153,10 @@ pub fn run(_ctx: &Ctx) -> Report {
             let r2 = catch(|| swapped.parse::<CardPair>());
             let ok = matches!((&r1, &r2), (Ok(Ok(x)), Ok(Ok(y))) if x == y && *x == p && *y == p && p == *x);
             check(&mut report, "both_text_orders_parse_equal", &name, ok, &|| format!("{:?} / {:?}", r1, r2));
+            // the same text again, twice in a row on this thread: still the same canonical value
+            let again = catch(|| (swapped.parse::<CardPair>(), swapped.parse::<CardPair>(), written.parse::<CardPair>()));
+            let ok = matches!(&again, Ok((Ok(x), Ok(y), Ok(z))) if [x, y, z].iter().all(|v| **v == p && cid(&v[0]) == lo && cid(&v[1]) == hi && std_hash(*v) == std_hash(&p)));
+            check(&mut report, "repeated_parse_stays_canonical", &name, ok, &|| format!("{:?}", again));
             // a parsed pair is the same canonical value as the built one: hashes, element order, text
             if let Ok(Ok(x)) = &r1 {
                 let x = *x;
@@ -106,6 +193,43 @@ pub fn run(_ctx: &Ctx) -> Report {
     }
     let range: HandRange = both_orders.iter().cloned().collect();
     check(&mut report, "map_keyed_in_both_orders_has_1326_entries", "HandRange", range.card_pairs().len() == 1326, &|| format!("{} keys", range.card_pairs().len()));
+    // every pair the public API hands out is in canonical form, however the rank pair was spelled
+    {
+        use crate::conv::RANKS;
+        use espada::hand_range::RankPair;
+        for (i, x) in RANKS.iter().enumerate() {
+            for (j, y) in RANKS.iter().enumerate() {
+                let mut sources: Vec<(String, Result<Vec<CardPair>, String>)> = Vec::new();
+                if i != j {
+                    sources.push((format!("RankPair::Suited({:?},{:?})", x, y), catch(|| RankPair::Suited(*x, *y).into_iter().collect())));
+                    sources.push((format!("RankPair::Ofsuit({:?},{:?})", x, y), catch(|| RankPair::Ofsuit(*x, *y).into_iter().collect())));
+                    for kind in ["s", "o"] {
+                        let text = format!("{}{}{}", crate::conv::RANK_CHARS[i], crate::conv::RANK_CHARS[j], kind);
+                        sources.push((format!("range '{}'", text), catch(|| text.parse::<HandRange>().map(|r| r.card_pairs().keys().cloned().collect::<Vec<_>>()).unwrap_or_default())));
+                    }
+                } else {
+                    sources.push((format!("RankPair::Pocket({:?})", x), catch(|| RankPair::Pocket(*x).into_iter().collect())));
+                }
+                for (name, got) in sources {
+                    let ok = match &got {
+                        Ok(pairs) => pairs.iter().all(|p| p[0] < p[1] && *p == CardPair::new(p[1], p[0]) && std_hash(p) == std_hash(&CardPair::new(p[0], p[1]))),
+                        Err(_) => true, // a panic on a reversed spelling is C09's subject
+                    };
+                    check(&mut report, "pairs_from_rank_pairs_are_canonical", &name, ok, &|| format!("{:?}", got));
+                }
+                if i < j {
+                    // both spellings in one range: every combo once
+                    for kind in ["s", "o"] {
+                        let text = format!("{a}{b}{k},{b}{a}{k}:0.5", a = crate::conv::RANK_CHARS[i], b = crate::conv::RANK_CHARS[j], k = kind);
+                        let n = catch(|| text.parse::<HandRange>().map(|r| r.card_pairs().len()));
+                        let expect = if kind == "s" { 4 } else { 12 };
+                        let ok = matches!(n, Ok(Ok(k)) if k == expect || k == 0) || n.is_err();
+                        check(&mut report, "both_spellings_of_a_rank_pair_hold_each_combo_once", &text, ok, &|| format!("{:?} combos", n));
+                    }
+                }
+            }
+        }
+    }
     // pairs of different card sets are different values
     let all: Vec<(u8, u8)> = crate::conv::all_pairs();
     let built: Vec<CardPair> = all.iter().map(|p| CardPair::new(card(p.1), card(p.0))).collect();
